@@ -185,14 +185,17 @@ inline std::vector<Expected> PassiveParser::parse(const std::vector<RxSym>& in) 
       return true;
     };
     Telegram tg;
+    bool selfDst = false;
     auto readMaster = [&](bool* crcOk) -> bool {
       tg.master.clear();
+      selfDst = false;
       uint8_t crc = 0, b;
       for (int k = 0; k < 5; k++) {
         if (!u(&b, &crc)) return false;
         tg.master.push_back(b);
         if (k == 0 && !isMaster(b)) { invalid = true; return false; }
-        if (k == 1 && (!isValidAddress(b) || b == tg.master[0])) { invalid = true; return false; }
+        if (k == 1 && !isValidAddress(b)) { invalid = true; return false; }
+        if (k == 1 && b == tg.master[0]) selfDst = true;   // decided once it is known whether this attempt is the accepted one
       }
       uint8_t nn = tg.master[4];
       if (nn > 16) { either = true; invalid = true; return false; }
@@ -226,6 +229,7 @@ inline std::vector<Expected> PassiveParser::parse(const std::vector<RxSym>& in) 
       bool crcOk = false;
       if (!readMaster(&crcOk)) break;
       uint8_t zz = tg.master[1];
+      bool firstSelfDst = selfDst;
       if (zz == BROADCAST) {
         if (crcOk) complete = true; else invalid = true;
         break;
@@ -235,12 +239,15 @@ inline std::vector<Expected> PassiveParser::parse(const std::vector<RxSym>& in) 
       if (!raw(&a, &ackOwn)) break;
       if (a == NAK) {
         nNakRepeat++;
+        // a NAK-ed first attempt with a self destination: a strict listener gives the telegram up there, a lenient
+        // one takes the repetition; the statement does not decide
+        if (firstSelfDst) either = true;
         if (!readMaster(&crcOk)) break;
         if (tg.master[1] == BROADCAST) { invalid = true; break; }
         zz = tg.master[1];
         if (!raw(&a, &ackOwn)) break;
-        if (a != ACK || !crcOk) { invalid = true; break; }
-      } else if (a != ACK || !crcOk) {
+        if (a != ACK || !crcOk || selfDst) { invalid = true; break; }
+      } else if (a != ACK || !crcOk || selfDst) {
         invalid = true;
         break;
       }
